@@ -253,3 +253,9 @@ Proof.
   unfold encode_rune. rewrite He. rewrite <- firstn_map, map_n2b_b2n.
   rewrite firstn_firstn. f_equal. lia.
 Qed.
+
+Lemma decode_rune_width_pos b0 t : (1 <= snd (decode_rune (b0 :: t)) <= 4)%nat.
+Proof.
+  unfold decode_rune. change (firstn 4 (b0 :: t)) with (b0 :: firstn 3 t).
+  rewrite map_cons. apply decodeN_width_pos.
+Qed.
